@@ -618,10 +618,19 @@ _EV = {ast.Name: _name, ast.Constant: _const, ast.Attribute: _attr, ast.Compare:
        ast.BinOp: _binop, ast.IfExp: _ifexp, ast.Subscript: _subscript, ast.Tuple: _tuple, ast.GeneratorExp: _genexp, ast.Call: _call}
 
 
-def eval_query(tree, env):
-    """top-level generator expression -> [(guard, [element values])]; element values are SV or ERef (definite row)"""
+def eval_query(tree, env, with_env=False):
+    """top-level generator expression -> [(guard, [element values])]; element values are SV or ERef (definite row).
+    with_env: rows are (guard, values, row environment) so that order keys / later filters can be evaluated per row"""
     if not isinstance(tree, ast.GeneratorExp): raise Unmodelled('query is not a generator expression')
     rows = []
+    if with_env:
+        for g, e in gen_items(tree, env):
+            elt = tree.elt
+            parts = elt.elts if isinstance(elt, ast.Tuple) else [elt]
+            with e.under(g): vals = [as_data(ev(p, e)) for p in parts]
+            if any(isinstance(v, ERef) and v.row is None for v in vals): raise Unmodelled('indirect reference in an ordered query')
+            rows.append((g, vals, e))
+        return rows
     for g, e in gen_items(tree, env):
         elt = tree.elt
         parts = elt.elts if isinstance(elt, ast.Tuple) else [elt]
